@@ -83,6 +83,9 @@ func DecodeDac3SR(hdr BoxHeader, startPos uint64, sr bits.SliceReader) (Box, err
 func decodeDac3FromData(data []byte) (Box, error) {
 	b := Dac3Box{}
 	if len(data) > 3 {
+		if len(data)-3 > 255 {
+			return nil, fmt.Errorf("dac3 box, %d extra initial bytes, max is 255", len(data)-3)
+		}
 		b.InitialZeroes = byte(len(data) - 3)
 	}
 	buf := bytes.NewBuffer(data)
